@@ -14,6 +14,7 @@ mod model;
 mod plans;
 mod progress;
 mod report;
+mod sched;
 mod seqx;
 
 use report::*;
@@ -48,6 +49,23 @@ macro_rules! with_flavor {
                 $body
             }
             other => panic!("GDSL_MC_HARNESS: unknown flavour {}", other),
+        }
+    };
+}
+
+#[macro_export]
+macro_rules! with_sync_flavor {
+    ($name:expr, $F:ident => $body:expr) => {
+        match $name {
+            "sync_digraph" => {
+                type $F = $crate::flavor::SDi;
+                $body
+            }
+            "sync_ungraph" => {
+                type $F = $crate::flavor::SUn;
+                $body
+            }
+            other => panic!("GDSL_MC_HARNESS: not a sync flavour: {}", other),
         }
     };
 }
